@@ -454,6 +454,36 @@ func translateSqrtFp(repo string, write func(name, imports, content string)) {
 		t.block("  ", fd.Body.List, "")
 		sb.WriteString("\n")
 	}
-	sb.WriteString("end\n\nend SqrtFp\n")
+	sb.WriteString("end\n\n")
+	// init(): the three table-building closures are not translated; their statements are pinned
+	{
+		var initFn *ast.FuncDecl
+		for _, d := range f.Decls {
+			if fd, ok := d.(*ast.FuncDecl); ok && fd.Name.Name == "init" {
+				if initFn != nil {
+					die("sqrtfp: two init() functions")
+				}
+				initFn = fd
+			}
+		}
+		if initFn == nil {
+			die("sqrtfp: init() not found")
+		}
+		ast.Inspect(initFn, func(n ast.Node) bool {
+			switch x := n.(type) {
+			case *ast.GenDecl:
+				x.Doc = nil
+			case *ast.ValueSpec:
+				x.Doc, x.Comment = nil, nil
+			}
+			return true
+		})
+		var st []string
+		for _, s := range initFn.Body.List {
+			st = append(st, stmtText(s))
+		}
+		sb.WriteString("/-- the statements of `init()` (table construction) -/\ndef initBody : List String := [" + quoteAll(st) + "]\n\n")
+	}
+	sb.WriteString("end SqrtFp\n")
 	write("SqrtFp.lean", "import GoIpa.Model.Loop\n", sb.String())
 }
